@@ -111,6 +111,7 @@ type harness struct {
 	vm         *otto.Otto
 	snapVM     *otto.Otto
 	snapScript *otto.Script
+	nlit       int
 	fs         *file.FileSet
 	nfs        int
 }
@@ -177,6 +178,12 @@ func guardErr(f func() error) (msg string, pan interface{}) {
 // accepted source, Compile twice, eval twice, Function twice): same rejection and error position
 // each time, global object unchanged, no panic
 func (h *harness) runtimeFlags(src string) (runRejects, runClean, evalClean bool, note string) {
+	return h.runtimeFlagsN(src, true)
+}
+
+// light: Run twice in a row and the snapshots only (used inside the big literal sweeps, where
+// every fourth source still gets the full treatment)
+func (h *harness) runtimeFlagsN(src string, full bool) (runRejects, runClean, evalClean bool, note string) {
 	pre := "__se = 1; var __v = 2; function __f(){}\n" + src
 	clean := func(s string) bool { return strings.HasSuffix(s, "|undefinedundefinedundefined") }
 	before := h.snap()
@@ -189,7 +196,11 @@ func (h *harness) runtimeFlags(src string) (runRejects, runClean, evalClean bool
 			why = msg
 		}
 	}
-	for i := 0; i < 4; i++ {
+	runs := 4
+	if !full {
+		runs = 2
+	}
+	for i := 0; i < runs; i++ {
 		if i == 3 { // once more after an accepted source
 			h.run("1 + 1")
 		}
@@ -207,13 +218,13 @@ func (h *harness) runtimeFlags(src string) (runRejects, runClean, evalClean bool
 		}
 	}
 	vm := h.vm
-	for i := 0; i < 2; i++ {
+	for i := 0; i < 2 && full; i++ {
 		msg, pan := guardErr(func() error { _, err := vm.Compile("", pre); return err })
 		if pan != nil || msg == "" {
 			fail(&runRejects, fmt.Sprintf("Compile #%d -> error %q panic %v", i+1, msg, pan))
 		}
 	}
-	if utf8.ValidString(src) { // the string literal handed to eval replaces invalid bytes
+	if full && utf8.ValidString(src) { // the string literal handed to eval replaces invalid bytes
 		lit := JSStr(Units(pre))
 		for i := 0; i < 2; i++ {
 			ev, _ := h.run(`(function(){ try { eval(` + lit + `); return "noerr" } catch (e) { return (e instanceof SyntaxError || e instanceof ReferenceError) ? "ok" : "other " + e } })()`)
@@ -335,7 +346,7 @@ func (h *harness) addRobust(src string, how string, r0 presult) {
 	}
 	note := ""
 	if !r0.accepted() && !r0.timeout {
-		a, b, c, n := h.runtimeFlags(src)
+		a, b, c, n := h.runtimeFlagsN(src, h.env.Rng.Intn(3) == 0)
 		flags = append(flags, a, b, c)
 		note = n
 	}
@@ -521,6 +532,7 @@ func main() {
 	h.escapeStream()
 	h.noInStream()
 	h.lineTerminatorStream()
+	h.literalPositionStream()
 	for env.Count() < env.N {
 		switch k := r.Intn(20); {
 		case k < 8: // generated program, verdict decided by the Coq model/spec
@@ -570,7 +582,7 @@ func main() {
 			if len(ts) == 0 {
 				continue
 			}
-			if len(ts) <= 120 {
+			if len(ts) <= 120 && (env.Tier == "thorough" || r.Intn(2) == 0) {
 				h.sweep(g.t)
 			}
 			i := r.Intn(len(ts))
